@@ -2,7 +2,7 @@
    "Handled" is read off the logged hook events (EvHandleEnter); "accepted" is the ghost list of
    everything the mailbox ever took in.  Every statement holds in every reachable state of every
    run (any schedule, fault pattern, capacity, number of actors and agents). *)
-From RS Require Import Tactics Spec Lifecycle Queue QueueStep CoreInv Delivery.
+From RS Require Import Tactics Spec Lifecycle Queue QueueStep CoreInv Delivery OpsSpec DeadLetters.
 
 (* the handler entries logged for an actor are exactly the envelopes its loop dequeued, in order *)
 Theorem C01_handled_is_dequeued : forall f ls a x,
@@ -20,6 +20,29 @@ Theorem C01_rejected_never : forall f ls o p x,
   rejected (o_kind p) (o_ph p) ->
   ~ In o (oids (a_accepted x)) /\ ~ In o (handled_events (hook_events (run f ls) (o_tgt p))).
 Proof. exact run_rejected_never. Qed.
+
+(* an operation's result, once returned, never changes *)
+Theorem C01_result_stable : forall f ls ls2 o p,
+  get_op (run f ls) o = Some p -> is_done (o_ph p) = true ->
+  exists p', get_op (run f (ls ++ ls2)) o = Some p' /\ o_ph p' = o_ph p /\ op_static p' = op_static p.
+Proof. exact run_result_stable. Qed.
+
+(* hence a message whose send returned Err(Send), or a tell that returned Err(Timeout), is not
+   handled now nor at any later time *)
+Theorem C01_rejected_never_later : forall f ls ls2 o p x,
+  get_op (run f ls) o = Some p ->
+  (o_ph p = ODone (RErr ESend) \/ (o_kind p = KTell /\ o_ph p = ODone (RErr ETimeout))) ->
+  get_actor (run f (ls ++ ls2)) (o_tgt p) = Some x ->
+  ~ In o (oids (a_accepted x)) /\ ~ In o (handled_events (hook_events (run f (ls ++ ls2)) (o_tgt p))).
+Proof.
+  intros f ls ls2 o p x Hp Hrej Hx.
+  destruct (run_result_stable f ls ls2 o p Hp) as (p' & Hp' & Eph & Est).
+  { destruct Hrej as [->|[_ ->]]; reflexivity. }
+  assert (Ek : o_kind p' = o_kind p /\ o_tgt p' = o_tgt p) by (unfold op_static in Est; injection Est as ? ? ? ? ? ?; auto).
+  destruct Ek as [Ek Et]. rewrite <- Et in *.
+  apply (run_rejected_never f (ls ++ ls2) o p' x Hp' Hx). unfold rejected. rewrite Eph, Ek.
+  destruct Hrej as [->|[Hk ->]]; auto.
+Qed.
 
 (* what the mailbox accepted is dequeued in acceptance order, never skipping *)
 Theorem C01_dequeued_prefix_of_accepted : forall f ls a x,
@@ -50,6 +73,9 @@ Example C01_example_run :
 Proof. vm_compute. repeat split; reflexivity. Qed.
 
 Check C01_handled_is_dequeued. Check C01_at_most_once. Check C01_rejected_never.
+Check C01_result_stable. Check C01_rejected_never_later.
+Print Assumptions C01_result_stable.
+Print Assumptions C01_rejected_never_later.
 Check C01_dequeued_prefix_of_accepted. Check C01_stop_marker_drains.
 Print Assumptions C01_handled_is_dequeued.
 Print Assumptions C01_at_most_once.
